@@ -208,7 +208,7 @@ pub fn exec_xbe(r: &Rec, run: fn(&Rec) -> Ran, has_flags: fn(i64) -> bool) -> Ra
     let res = match res {
         Ok((mut obs, out)) if has_flags(r.code) && !obs.is_empty() => {
             let small = [3usize, 6, 9].iter().all(|i| r.ps[*i] <= 17) && r.ps[HDR..].len() < 40
-                && (r.code < 4021 || r.code >= 5000 || r.ps.get(HDR + 7).is_none_or(|b| *b <= 17));
+                && (!(matches!(r.code, 3061..=3066) || (4021..5000).contains(&r.code)) || r.ps.get(HDR + 7).is_none_or(|b| *b <= 17));
             let mut verdict = 2i128;
             if small {
                 verdict = 1;
@@ -387,4 +387,126 @@ macro_rules! ks_helpers {
             (ct, pt)
         }
     };
+}
+
+/// m2 classes: 0 zero, 1 one, 2 minus one, 3 X^k, 4 small dense, 5 -X^k
+pub fn m2_poly(g: &mut Rng, n: usize, class: u64) -> Vec<i128> {
+    let mut p = vec![0i128; n];
+    match class {
+        0 => {}
+        1 => p[0] = 1,
+        2 => p[0] = -1,
+        3 => p[g.below(n as u64) as usize] = 1,
+        5 => p[g.below(n as u64) as usize] = -1,
+        _ => for c in p.iter_mut() { *c = g.range(-2, 2) as i128; },
+    }
+    p
+}
+
+/// The GGSW family built on the GGLWE->GGSW (tensor) key generated through the public API (shared by C03 and C04; `code` is the
+/// C04 numbering): 4021 ggsw_from_gglwe, 4022 ggsw_expand_row, 4023 rows of the tensor key itself, 4030/4031 ggsw_keyswitch(_assign),
+/// 4032/4033 ggsw_automorphism(_assign).  Header key = tensor key; x4 = dsize of the GGSW, x5 = its dnum, x6 = its noise position,
+/// x7.. = second key (b, size, dsize, dnum, k), x0 = Galois element.  Observations: every cell of the result, [flags].
+pub fn run_ggsw_family(r: &Rec, code: i64) -> Ran {
+    use poulpy_verif_harness::with_be;
+    let h = Hdr::parse(&r.ps);
+    let x = |i: usize| r.ps.get(HDR + i).copied().unwrap_or(0);
+    with_be!(h.be, BE, {
+        ks_helpers!(BE);
+        let m: M = M::new(h.n as u64);
+        let n = h.n;
+        let rank = h.key_rout;
+        let (kind, mclass) = (x(1) as u64, x(3) as u64);
+        let mut g = Rng::new(h.seed ^ 0xC4C4);
+        let sk = sk_new(n, rank, h.seed ^ 1, kind);
+        let s = sk_coeffs(&m, &sk);
+        let ggsw_dump = |gg: &GGSW<Vec<u8>>, dnum: usize| mat_dump(|r_, c| gg.at(r_, c), dnum, rank + 1);
+        if code == 4023 {
+            // rows of the tensor key: key i (i < rank), row r, input column j encrypts s_i * s_j * 2^-((r+1) dsize b) under s
+            let lt = GGLWEToGGSWKeyLayout { n: Degree(n as u32), base2k: Base2K(h.key_b as u32), k: TorusPrecision((h.key_size * h.key_b) as u32),
+                                            rank: Rank(rank as u32), dnum: Dnum(h.dnum as u32), dsize: Dsize(h.dsize as u32) };
+            let vs = vec![s.clone(), s.clone()];
+            return (vs, try_op(|| {
+                let (tk, _tkp) = tsk_new(&m, &lt, h.key_k, &sk, h.seed);
+                let obs: Vec<Vec<i128>> = (0..rank).map(|i| mat_dump(|r_, c| tk.at(i).at(r_, c), h.dnum, rank)).collect();
+                (obs, vec![vec![1]])
+            }));
+        }
+                // the GGSW that is produced / transformed: radix in_b (source) -> out_b (result), dsize x4, dnum x5, noise position x6
+                let (gd, gn_, gk) = (us(x(4)), us(x(5)), us(x(6)));
+                let m2 = input_or(r, 4, || m2_poly(&mut g, n, mclass));
+                let lt = GGLWEToGGSWKeyLayout { n: Degree(n as u32), base2k: Base2K(h.key_b as u32), k: TorusPrecision((h.key_size * h.key_b) as u32),
+                                                rank: Rank(rank as u32), dnum: Dnum(h.dnum as u32), dsize: Dsize(h.dsize as u32) };
+                let lsrc = GGSWLayout { n: Degree(n as u32), base2k: Base2K(h.in_b as u32), k: TorusPrecision((h.in_size * h.in_b) as u32), rank: Rank(rank as u32), dnum: Dnum(gn_ as u32), dsize: Dsize(gd as u32) };
+                let lres = GGSWLayout { n: Degree(n as u32), base2k: Base2K(h.out_b as u32), k: TorusPrecision((h.out_size * h.out_b) as u32), rank: Rank(rank as u32), dnum: Dnum(gn_ as u32), dsize: Dsize(gd as u32) };
+                
+                // the secret under which the source is encrypted: a second secret for the GGSW key-switch
+                let sk_src = if code == 4030 || code == 4031 { sk_new(n, rank, h.seed ^ 3, kind) } else { sk_new(n, rank, h.seed ^ 1, kind) };
+                let s_src = sk_coeffs(&m, &sk_src);
+                let (_tk, tkp) = tsk_new(&m, &lt, h.key_k, &sk, h.seed);
+                let noise_src = NoiseInfos::new(gk, DEFAULT_SIGMA_XE, 6.0 * DEFAULT_SIGMA_XE).unwrap();
+                // second key
+                let mut h2 = h; h2.key_b = us(x(7)); h2.key_size = us(x(8)); h2.dsize = us(x(9)); h2.dnum = us(x(10)); h2.key_k = us(x(11)); h2.key_rin = rank; h2.key_rout = rank;
+                let p = x(0) as i64;
+                let vs = vec![s_src.clone(), s.clone(), vec![], vec![], m2.clone()];
+                (vs, try_op(|| {
+                    let (mut o, same) = twice(|fill| {
+                        match code {
+                            4021 => {
+                                // GGLWE with one input column whose rows encrypt m2 * 2^-((row+1) dsize b)
+                                let lg = GGLWELayout { n: Degree(n as u32), base2k: Base2K(h.in_b as u32), k: TorusPrecision((h.in_size * h.in_b) as u32),
+                                                       rank_in: Rank(1), rank_out: Rank(rank as u32), dnum: Dnum(gn_ as u32), dsize: Dsize(gd as u32) };
+                                let mut a = GGLWE::alloc_from_infos(&lg);
+                                let pt = mk_scalar_znx(n, 1, &v64(&m2));
+                                let skp = sk_prep(&m, &sk);
+                                let mut sc0 = setup(m.gglwe_encrypt_sk_tmp_bytes(&lg));
+                                m.gglwe_encrypt_sk(&mut a, &pt, &skp, &noise_src, &mut src(h.seed ^ 0x81), &mut src(h.seed ^ 0x82), sc0.borrow());
+                                let mut res = GGSW::alloc_from_infos(&lres);
+                                let mut sc = scratch(m.ggsw_from_gglwe_tmp_bytes(&lres, &lt), fill);
+                                m.ggsw_from_gglwe(&mut res, &a, &tkp, sc.borrow());
+                                vec![ggsw_dump(&res, gn_)]
+                            }
+                            4022 => {
+                                let (mut gg, _gp) = ggsw_new(&m, &lres, gk, &sk, &m2, h.seed ^ 0x99);
+                                for row in 0..gn_ { for c in 1..=rank { gg.at_mut(row, c).data_mut().data.iter_mut().for_each(|b| *b = 0x5a); } }
+                                let mut sc = scratch(m.ggsw_expand_rows_tmp_bytes(&lres, &lt), fill);
+                                m.ggsw_expand_row(&mut gg, &tkp, sc.borrow());
+                                vec![ggsw_dump(&gg, gn_)]
+                            }
+                            4030 | 4031 => {
+                                let (a, _ap) = ggsw_new(&m, &lsrc, gk, &sk_src, &m2, h.seed ^ 0x99);
+                                let (_k, kp) = ksk_new(&m, &h2, &sk_src, &sk, h.seed ^ 0x77);
+                                if code == 4030 {
+                                    let mut res = GGSW::alloc_from_infos(&lres);
+                                    let mut sc = scratch(m.ggsw_keyswitch_tmp_bytes(&lres, &lsrc, &kp, &lt), fill);
+                                    m.ggsw_keyswitch(&mut res, &a, &kp, &tkp, sc.borrow());
+                                    vec![ggsw_dump(&res, gn_)]
+                                } else {
+                                    let mut res = a.clone();
+                                    let mut sc = scratch(m.ggsw_keyswitch_tmp_bytes(&lsrc, &lsrc, &kp, &lt), fill);
+                                    m.ggsw_keyswitch_assign(&mut res, &kp, &tkp, sc.borrow());
+                                    vec![ggsw_dump(&res, gn_)]
+                                }
+                            }
+                            _ => {
+                                let (a, _ap) = ggsw_new(&m, &lsrc, gk, &sk, &m2, h.seed ^ 0x99);
+                                let (_k, kp) = atk_new(&m, &h2, &sk, p, h.seed ^ 0x77);
+                                if code == 4032 {
+                                    let mut res = GGSW::alloc_from_infos(&lres);
+                                    let mut sc = scratch(m.ggsw_automorphism_tmp_bytes(&lres, &lsrc, &kp, &lt), fill);
+                                    m.ggsw_automorphism(&mut res, &a, &kp, &tkp, sc.borrow());
+                                    vec![ggsw_dump(&res, gn_)]
+                                } else {
+                                    let mut res = a.clone();
+                                    let mut sc = scratch(m.ggsw_automorphism_tmp_bytes(&lsrc, &lsrc, &kp, &lt), fill);
+                                    m.ggsw_automorphism_assign(&mut res, &kp, &tkp, sc.borrow());
+                                    vec![ggsw_dump(&res, gn_)]
+                                }
+                            }
+                        }
+                    });
+                    o.push(vec![same]);
+                    (o, vec![vec![1]])
+                }))
+    })
 }
